@@ -261,6 +261,21 @@ def model_worker(job):
                 seen_classes.add(v.cls)
                 small, sres = shrink(mb, run, prof['judge'], v.cls)
                 if small is None:
+                    # Undefined behaviour in the program under test (dangling access): what a re-execution observes
+                    # depends on what the dead memory holds.  Accept any violation of the re-execution for shrinking and
+                    # keep the class of the first execution; if nothing reproduces, report the run unshrunk.
+                    ub = ('sanitizer:memory-error', 'crash:')
+                    res2 = worldA.run_tapes(mb, tapes.render(run))[0]
+                    try:
+                        vs2 = prof['judge'](mb, run, res2)
+                    except worldA.HarnessError:
+                        vs2 = []
+                    if v.cls.startswith(ub) or any(x.cls.startswith(ub) for x in vs2):
+                        if vs2:
+                            small, sres = shrink(mb, run, prof['judge'], vs2[0].cls)
+                        if small is None:
+                            small, sres = run, res
+                if small is None:
                     # not reproducible on re-execution: the simulation would be non-deterministic
                     raise worldA.HarnessError(f'model {job["index"]} run {run["id"]}: violation {v.cls} did not reproduce on re-execution')
                 detail = next((x.detail for x in prof['judge'](mb, small, sres) if x.cls == v.cls), v.detail)
